@@ -1,10 +1,17 @@
 (* Extraction of the executable model for the correspondence check.  Only the three
    standard directive files are used; Z, positive, N, nat stay inductive. *)
-From Ase Require Import Model.Dump Model.Sched Model.Util.
+From Ase Require Import Model.Dump Model.Sched Model.Util Proofs.BlendLaws Proofs.BlendRef.
+From Ase Require Spec.AseRef.
+
+(* the Aseprite reference on packed colours, and the HSL guards, under names of their own *)
+Definition ref_blend_n := AseRef.blend_n.
+Definition ref_hsl_guard := hsl_guard.
+Definition ref_hsl_ok := hsl_ok.
 From Coq Require Import ExtrOcamlBasic ExtrOCamlFloats ExtrOCamlInt63.
 Extraction Language OCaml.
 Set Extraction Output Directory ".".
 Extraction "model.ml"
   load load_rest section outcome_line err_code observe blend
   run_sched_load run_fault_load
-  extrude_border mapper_new mapper_lookup to_indexed.
+  extrude_border mapper_new mapper_lookup to_indexed
+  ref_blend_n ref_hsl_guard ref_hsl_ok.
